@@ -41,6 +41,10 @@ type kase struct {
 	// Late: the sub-listeners are registered while Start is already running
 	// (after it has handled a first, rejected, connection)
 	Late bool `json:"late,omitempty"`
+	// Then: further clients that connect, one after the other, to the same
+	// running split listener after Client has been dealt with (routing must
+	// not carry anything over from one connection to the next)
+	Then []string `json:"then,omitempty"`
 }
 
 // ownErrListener reports closure with its own error value. Asked again and
@@ -81,6 +85,18 @@ func (l *ownErrListener) Accept() (net.Conn, error) {
 func (l *ownErrListener) Close() error {
 	l.closed.Store(true)
 	return l.Listener.Close()
+}
+
+// followers: the client kinds used for the connections after the first one
+var followers = []string{"auth:", "auth:a", "authstate:a", "base:", "base:a", "fetch"}
+
+func isFollower(c string) bool {
+	for _, f := range followers {
+		if f == c {
+			return true
+		}
+	}
+	return false
 }
 
 var clients = []string{
@@ -222,8 +238,7 @@ func (w *world) one(k kase, r *engine.Report) (string, string) {
 		go func() { startDone <- sl.Start() }()
 	}
 
-	// ---- client
-	landed := "" // "@name", "closed", "handshake-failed", "not-authorized"
+	// ---- clients, one after the other
 	readTag := func(c net.Conn) string {
 		c.SetDeadline(time.Now().Add(30 * time.Second))
 		buf := make([]byte, 64)
@@ -234,77 +249,95 @@ func (w *world) one(k kase, r *engine.Report) (string, string) {
 		return "closed"
 	}
 	addr := base.Addr().String()
-	switch {
-	case strings.HasPrefix(k.Client, "auth:"), strings.HasPrefix(k.Client, "authstate:"):
-		var extras []string
-		if e := k.Client[strings.Index(k.Client, ":")+1:]; e != "" {
-			extras = strings.Split(e, ",")
-		}
-		nonce := harness.Bytes("c17", 32)
-		b := w.node.Creds.CertificateBundles[0]
-		for i, e := range extras {
-			if e == "PREF" { // a valid certificate-preference entry ahead of the other extras
-				extras[i] = nodeenrollment.CertificatePreferenceV1Prefix + harness.CaKeyId(b.CaCertificateDer)
+	doClient := func(cl string) (string, bool) {
+		landed := "" // "@name", "closed", "handshake-failed", "not-authorized"
+		switch {
+		case strings.HasPrefix(cl, "auth:"), strings.HasPrefix(cl, "authstate:"):
+			var extras []string
+			if e := cl[strings.Index(cl, ":")+1:]; e != "" {
+				extras = strings.Split(e, ",")
+			}
+			nonce := harness.Bytes("c17", 32)
+			b := w.node.Creds.CertificateBundles[0]
+			for i, e := range extras {
+				if e == "PREF" { // a valid certificate-preference entry ahead of the other extras
+					extras[i] = nodeenrollment.CertificatePreferenceV1Prefix + harness.CaKeyId(b.CaCertificateDer)
+				}
+			}
+			c := &harness.AuthClient{Request: &types.GenerateServerCertificatesRequest{CertificatePublicKeyPkix: w.node.K.Pkix, Nonce: nonce, NonceSignature: w.node.K.Sign(nonce)},
+				Chain: [][]byte{b.CertificateDer, b.CaCertificateDer}, Key: w.node.K.Priv, Preference: harness.CaKeyId(b.CaCertificateDer), ExtraProtos: extras}
+			if strings.HasPrefix(cl, "authstate:") {
+				c.Request.ClientState, _ = proto.Marshal(harness.Struct(map[string]any{"worker": "w_1234567890", "tags": []any{"a", "b", "c"}, "zone": strings.Repeat("z", 200)}))
+				c.Request.ClientStateSignature = w.node.K.Sign(c.Request.ClientState)
+			}
+			conn, err := c.Connect(addr)
+			if err != nil {
+				landed = "handshake-failed"
+			} else {
+				landed = readTag(conn)
+				conn.Close()
+			}
+		case strings.HasPrefix(cl, "replay:"):
+			var extras []string
+			if e := strings.TrimPrefix(cl, "replay:"); e != "" {
+				extras = strings.Split(e, ",")
+			}
+			nonce := harness.Bytes("c17", 32)
+			b2 := w.node2.Creds.CertificateBundles[0]
+			c := &harness.AuthClient{Request: &types.GenerateServerCertificatesRequest{CertificatePublicKeyPkix: w.node.K.Pkix, Nonce: nonce, NonceSignature: w.node.K.Sign(nonce)},
+				Chain: [][]byte{b2.CertificateDer, b2.CaCertificateDer}, Key: w.node2.K.Priv, Preference: harness.CaKeyId(b2.CaCertificateDer), ExtraProtos: extras}
+			conn, err := c.Connect(addr)
+			if err != nil {
+				landed = "handshake-failed"
+			} else {
+				landed = readTag(conn)
+				conn.Close()
+			}
+		case strings.HasPrefix(cl, "base:"):
+			var protos []string
+			if e := strings.TrimPrefix(cl, "base:"); e != "" {
+				protos = strings.Split(e, ",")
+			}
+			raw, err := net.DialTimeout("tcp", addr, 10*time.Second)
+			if err != nil {
+				r.InfraError(err.Error())
+				return "", false
+			}
+			tc := tls.Client(raw, &tls.Config{InsecureSkipVerify: true, NextProtos: protos, MinVersion: tls.VersionTLS12})
+			tc.SetDeadline(time.Now().Add(30 * time.Second))
+			if err := tc.Handshake(); err != nil {
+				landed = "handshake-failed"
+			} else {
+				landed = readTag(tc)
+			}
+			raw.Close()
+		case cl == "fetch":
+			conn, err := protocol.Dial(harness.Ctx, w.pending.Clone(), addr)
+			switch {
+			case errors.Is(err, nodeenrollment.ErrNotAuthorized):
+				landed = "not-authorized"
+			case err != nil:
+				landed = "handshake-failed"
+			default:
+				landed = readTag(conn)
+				conn.Close()
 			}
 		}
-		c := &harness.AuthClient{Request: &types.GenerateServerCertificatesRequest{CertificatePublicKeyPkix: w.node.K.Pkix, Nonce: nonce, NonceSignature: w.node.K.Sign(nonce)},
-			Chain: [][]byte{b.CertificateDer, b.CaCertificateDer}, Key: w.node.K.Priv, Preference: harness.CaKeyId(b.CaCertificateDer), ExtraProtos: extras}
-		if strings.HasPrefix(k.Client, "authstate:") {
-			c.Request.ClientState, _ = proto.Marshal(harness.Struct(map[string]any{"worker": "w_1234567890", "tags": []any{"a", "b", "c"}, "zone": strings.Repeat("z", 200)}))
-			c.Request.ClientStateSignature = w.node.K.Sign(c.Request.ClientState)
-		}
-		conn, err := c.Connect(addr)
-		if err != nil {
-			landed = "handshake-failed"
-		} else {
-			landed = readTag(conn)
-			conn.Close()
-		}
-	case strings.HasPrefix(k.Client, "replay:"):
-		var extras []string
-		if e := strings.TrimPrefix(k.Client, "replay:"); e != "" {
-			extras = strings.Split(e, ",")
-		}
-		nonce := harness.Bytes("c17", 32)
-		b2 := w.node2.Creds.CertificateBundles[0]
-		c := &harness.AuthClient{Request: &types.GenerateServerCertificatesRequest{CertificatePublicKeyPkix: w.node.K.Pkix, Nonce: nonce, NonceSignature: w.node.K.Sign(nonce)},
-			Chain: [][]byte{b2.CertificateDer, b2.CaCertificateDer}, Key: w.node2.K.Priv, Preference: harness.CaKeyId(b2.CaCertificateDer), ExtraProtos: extras}
-		conn, err := c.Connect(addr)
-		if err != nil {
-			landed = "handshake-failed"
-		} else {
-			landed = readTag(conn)
-			conn.Close()
-		}
-	case strings.HasPrefix(k.Client, "base:"):
-		var protos []string
-		if e := strings.TrimPrefix(k.Client, "base:"); e != "" {
-			protos = strings.Split(e, ",")
-		}
-		raw, err := net.DialTimeout("tcp", addr, 10*time.Second)
-		if err != nil {
-			r.InfraError(err.Error())
+
+		return landed, true
+	}
+	sequence := append([]string{k.Client}, k.Then...)
+	var landedAll []string
+	var deliveredAfter []int
+	for _, cl := range sequence {
+		l, ok := doClient(cl)
+		if !ok {
 			return "", ""
 		}
-		tc := tls.Client(raw, &tls.Config{InsecureSkipVerify: true, NextProtos: protos, MinVersion: tls.VersionTLS12})
-		tc.SetDeadline(time.Now().Add(30 * time.Second))
-		if err := tc.Handshake(); err != nil {
-			landed = "handshake-failed"
-		} else {
-			landed = readTag(tc)
-		}
-		raw.Close()
-	case k.Client == "fetch":
-		conn, err := protocol.Dial(harness.Ctx, w.pending.Clone(), addr)
-		switch {
-		case errors.Is(err, nodeenrollment.ErrNotAuthorized):
-			landed = "not-authorized"
-		case err != nil:
-			landed = "handshake-failed"
-		default:
-			landed = readTag(conn)
-			conn.Close()
-		}
+		landedAll = append(landedAll, l)
+		mu.Lock()
+		deliveredAfter = append(deliveredAfter, len(deliveries))
+		mu.Unlock()
 	}
 
 	// ---- shutdown: every sub-listener must report closed
@@ -351,55 +384,74 @@ func (w *world) one(k kase, r *engine.Report) (string, string) {
 			return "connection-type", fmt.Sprintf("%s: sub-listener %q handed out a %s connection, want %s", describe(k), d.Sub, d.Type, wantType)
 		}
 	}
-	if len(deliveries) > 1 {
-		return "delivered-twice", fmt.Sprintf("%s: one client connection was delivered %d times: %v", describe(k), len(deliveries), deliveries)
-	}
-	// allowed destinations for this client
-	allowed := map[string]bool{}
-	switch {
-	case strings.HasPrefix(k.Client, "auth:"), strings.HasPrefix(k.Client, "authstate:"):
-		extras := strings.Split(k.Client[strings.Index(k.Client, ":")+1:], ",")
-		specific := false
-		for _, e := range extras {
-			if e == "PREF" {
-				continue
-			}
-			if e != "" && has[e] {
-				allowed["@"+e] = true
-				specific = true
-			}
+	prev := 0
+	for i, n := range deliveredAfter {
+		if n-prev > 1 {
+			return "delivered-twice", fmt.Sprintf("%s: client connection #%d (%q) was delivered %d times: %v", describe(k), i+1, sequence[i], n-prev, deliveries)
 		}
-		if !specific {
-			if has[nenet.AuthenticatedNonSpecificNextProto] {
-				allowed["@"+nenet.AuthenticatedNonSpecificNextProto] = true
+		prev = n
+	}
+	if len(deliveries) > len(sequence) {
+		return "delivered-twice", fmt.Sprintf("%s: %d client connections were delivered %d times: %v", describe(k), len(sequence), len(deliveries), deliveries)
+	}
+	for i, cl := range sequence {
+		landed := landedAll[i]
+		// allowed destinations for this client
+		allowed := map[string]bool{}
+		switch {
+		case strings.HasPrefix(cl, "auth:"), strings.HasPrefix(cl, "authstate:"):
+			extras := strings.Split(cl[strings.Index(cl, ":")+1:], ",")
+			specific := false
+			for _, e := range extras {
+				if e == "PREF" {
+					continue
+				}
+				if e != "" && has[e] {
+					allowed["@"+e] = true
+					specific = true
+				}
+			}
+			if !specific {
+				if has[nenet.AuthenticatedNonSpecificNextProto] {
+					allowed["@"+nenet.AuthenticatedNonSpecificNextProto] = true
+				} else {
+					allowed["closed"] = true
+				}
+			}
+		case strings.HasPrefix(cl, "base:"):
+			allowed["handshake-failed"] = true // no common application protocol is the base configuration's business
+			if has[nenet.UnauthenticatedNextProto] {
+				allowed["@"+nenet.UnauthenticatedNextProto] = true
 			} else {
 				allowed["closed"] = true
 			}
-		}
-	case strings.HasPrefix(k.Client, "base:"):
-		allowed["handshake-failed"] = true // no common application protocol is the base configuration's business
-		if has[nenet.UnauthenticatedNextProto] {
-			allowed["@"+nenet.UnauthenticatedNextProto] = true
-		} else {
+		case cl == "fetch":
+			allowed["not-authorized"] = true
+		case strings.HasPrefix(cl, "replay:"):
+			// the certificate does not belong to the key the request was verified for
+			allowed["handshake-failed"] = true
 			allowed["closed"] = true
 		}
-	case k.Client == "fetch":
-		allowed["not-authorized"] = true
-	case strings.HasPrefix(k.Client, "replay:"):
-		// the certificate does not belong to the key the request was verified for
-		allowed["handshake-failed"] = true
-		allowed["closed"] = true
-	}
-	if !allowed[landed] {
-		var a []string
-		for x := range allowed {
-			a = append(a, x)
+		if !allowed[landed] {
+			var a []string
+			for x := range allowed {
+				a = append(a, x)
+			}
+			sort.Strings(a)
+			sig := "misrouted:" + clientClass(cl) + ":" + landed
+			if i > 0 {
+				sig = "misrouted-after-" + clientClass(sequence[i-1]) + ":" + clientClass(cl) + ":" + landed
+			}
+			return sig, fmt.Sprintf("%s: connection #%d (%q) ended up %q, the property allows %v (all: %v, deliveries %v)", describe(k), i+1, cl, landed, a, landedAll, deliveries)
 		}
-		sort.Strings(a)
-		return "misrouted:" + clientClass(k.Client) + ":" + landed, fmt.Sprintf("%s: the connection ended up %q, the property allows %v (deliveries %v)", describe(k), landed, a, deliveries)
+		r.Branch("routed:" + strings.SplitN(landed, ":", 2)[0])
+		if i > 0 {
+			r.Branch("second-connection-routed")
+			r.Outcome(clientClass(sequence[i-1]) + "->" + landedAll[i-1] + " then " + clientClass(cl) + "->" + landed)
+		} else {
+			r.Outcome(clientClass(cl) + "->" + landed)
+		}
 	}
-	r.Branch("routed:" + strings.SplitN(landed, ":", 2)[0])
-	r.Outcome(clientClass(k.Client) + "->" + landed)
 	return "", ""
 }
 
@@ -411,7 +463,7 @@ func clientClass(c string) string {
 }
 
 func describe(k kase) string {
-	return fmt.Sprintf("sub-listeners %v native=%v client %q close=%q registered-late=%v", k.Subs, k.Native, k.Client, k.Close, k.Late)
+	return fmt.Sprintf("sub-listeners %v native=%v client %q then %q close=%q registered-late=%v", k.Subs, k.Native, k.Client, k.Then, k.Close, k.Late)
 }
 
 func run(c *engine.Ctx, r *engine.Report) {
@@ -446,6 +498,56 @@ func run(c *engine.Ctx, r *engine.Report) {
 						r.Sample(k)
 					}
 				}
+			}
+		}
+	}
+	// several connections, one after the other, through one running split
+	// listener: every ordered pair of followers (quick) / every ordered pair of
+	// all client kinds and every triple of followers (thorough), for every set
+	// of sub-listeners. Routing keeps nothing from one connection to the next.
+	r.Need("second-connection-routed")
+	firsts, depth := followers, 2
+	if c.Thorough() {
+		firsts, depth = clients, 3
+	}
+	for mask := 0; mask < 16; mask++ {
+		var subs []string
+		for b, n := range subNames {
+			if mask&(1<<b) != 0 {
+				subs = append(subs, n)
+			}
+		}
+		for _, native := range []bool{false, true} {
+			for _, first := range firsts {
+				var rec func(then []string)
+				rec = func(then []string) {
+					if len(then) > 0 {
+						i++
+						if c.Mine(i) {
+							k := kase{Subs: subs, Native: native, Client: first, Then: append([]string{}, then...), Seed: c.Seed}
+							r.Eval(1)
+							if sig, msg := w.one(k, r); sig != "" {
+								r.Violate(sig, msg, k)
+							} else {
+								r.Nontrivial(1)
+								if i%97 == 2 {
+									r.Sample(k)
+								}
+							}
+						}
+					}
+					if len(then)+1 >= depth || (len(then) >= 1 && (native || !isFollower(first) || !isFollower(then[0]))) {
+						return // triples: followers only, tls.Conn deliveries only
+					}
+					next := followers
+					if c.Thorough() && len(then) == 0 {
+						next = clients
+					}
+					for _, f := range next {
+						rec(append(then, f))
+					}
+				}
+				rec(nil)
 			}
 		}
 	}
